@@ -261,6 +261,13 @@ func (enc *Encoder) Literal(size int64, sync *ContinuationRequest) io.WriteClose
 		panic("imapwire: sync must be nil on a server-side Encoder.Literal")
 	}
 
+	// If encoding has already failed (e.g. a previous literal of the same
+	// command has been refused by the server), the literal header won't be
+	// written: make sure the payload isn't written either
+	if enc.err != nil {
+		return errorWriter{enc.err}
+	}
+
 	// TODO: literal8
 	enc.writeString("{")
 	enc.Number64(size)
